@@ -27,16 +27,23 @@ COMPONENTS = {'real': ['ikesacontroller.dispatch_message (half-open count, thres
 ASSUMPTIONS = ['cookie_threshold is lowered through the controller attribute the repository test-suite itself sets',
                'the secret is unknown to the harness: binding is tested by equality / inequality of cookies across requests']
 EXPECT_REACH = ['regime_reached', 'probe.no_cookie', 'probe.same_again', 'probe.other_spi', 'probe.other_nonce', 'probe.other_addr',
-                'probe.corrupted', 'probe.replay_other_spi', 'probe.replay_other_nonce', 'probe.replay_other_addr', 'probe.correct',
-                'probe.below_threshold', 'honest_retry_checked', 'honest_established']
+                'probe.corrupted', 'probe.no_cookie_ke_mismatch', 'probe.no_cookie_bad_proposal', 'probe.replay_other_spi', 'probe.replay_other_nonce', 'probe.replay_other_addr', 'probe.correct',
+                'probe.below_threshold', 'honest_retry_checked', 'honest_retry_retransmission_checked', 'honest_established']
 
 
-def build_init(conn, spi_i, nonce, ke_x, cookies=(), cookie_pos=0, group=None):
-    """An IKE_SA_INIT request acceptable to the daemon whose connection (independent reading) is `conn`."""
+def build_init(conn, spi_i, nonce, ke_x, cookies=(), cookie_pos=0, group=None, odd=None):
+    """An IKE_SA_INIT request acceptable to the daemon whose connection (independent reading) is `conn`.
+    odd='ke_mismatch': the daemon's preferred group is offered too but the KE payload is in another one (it would answer
+    INVALID_KE_PAYLOAD); odd='bad_proposal': nothing acceptable is offered (it would answer NO_PROPOSAL_CHOSEN)."""
     ike = conn['ike']
     g = group or ike['dh'][0]
     trs = [{'type': 1, 'id': ike['encr'][0][0], 'keylen': ike['encr'][0][1]}, {'type': 3, 'id': ike['integ'][0]},
            {'type': 2, 'id': ike['prf'][0]}, {'type': 4, 'id': g}]
+    if odd == 'ke_mismatch':
+        g = next(x for x in (19, 14, 20, 15) if x != ike['dh'][0])
+        trs.append({'type': 4, 'id': g})
+    elif odd == 'bad_proposal':
+        trs[0] = {'type': 1, 'id': 3, 'keylen': None}      # 3DES only
     pls = [{'type': R.P_SA, 'proposals': [{'num': 1, 'proto': 1, 'spi': b'', 'transforms': trs}]},
            {'type': R.P_NONCE, 'data': nonce}, {'type': R.P_KE, 'group': g, 'data': R.dh_public(g, ke_x)}]
     for i, c in enumerate(cookies):
@@ -184,6 +191,12 @@ class CookieProber:
                 return
         bad = bytearray(c1)
         bad[rr.randrange(len(bad))] ^= 1 << rr.randrange(8)
+        # a request the daemon would otherwise answer INVALID_KE_PAYLOAD / NO_PROPOSAL_CHOSEN: without the right cookie it must not even look
+        for tag, data, src in (('no_cookie_ke_mismatch', build_init(conn_q, rb(8), nonce, x, odd='ke_mismatch'), q),
+                               ('no_cookie_bad_proposal', build_init(conn_q, rb(8), nonce, x, odd='bad_proposal'), q),
+                               ('corrupted_ke_mismatch', build_init(conn_q, spi, nonce, x, [bytes(bad)], odd='ke_mismatch'), q)):
+            if rejected(tag, data, src) is None:
+                return
         for tag, data, src in (('corrupted', build_init(conn_q, spi, nonce, x, [bytes(bad)]), q),
                                ('truncated_cookie', build_init(conn_q, spi, nonce, x, [c1[:-1]]), q),
                                ('replay_other_spi', build_init(conn_q, spi2, nonce, x, [c1]), q),
@@ -246,6 +259,15 @@ def generate(seed, tier):
     sc['probe_flow'] = flow
     sc['until'] = 16.0
     sc['quiet_from'] = 16.0
+    if r.random() < 0.3:
+        # the honest initiator's second datagram (the cookie-bearing retry when it was challenged, else its IKE_AUTH request) is lost: it has to
+        # come again, identical, from the retransmission timer (2 s later) and the exchange still completes
+        sc.setdefault('fates', {})['A#2'] = {'fate': 'drop'}
+        sc['meta']['retry_lost'] = True
+        for o_ in ops:
+            if o_.get('name') == 'honest_check':
+                o_['t'] = round(t_honest + 10.0, 3)
+        sc['until'] = sc['quiet_from'] = max(16.0, round(t_honest + 11.0, 3))
     ops.sort(key=lambda x: x['t'])
     return sc
 
@@ -309,13 +331,30 @@ def run(scenario):
                                 f'first payloads {[R.PNAMES.get(p["type"]) for p in p1]}, retry {[R.PNAMES.get(p["type"]) for p in p2]}, '
                                 f'lengths {len(prev["data"])} -> {len(nxt["data"])}')
                     return
+                # ---- and what the retransmission timer sends afterwards is that retry again (until another COOKIE answer arrives)
+                later = [e for e in reqs if e['t'] > nxt['t'] and e['h']['spi_i'] == h2['spi_i']]
+                last = nxt
+                for e in later:
+                    if any(last['t'] <= x['t'] <= e['t'] for x in ctx['wire'].by_sender.get('B', [])
+                           if x['dst'] == scenario['meta']['a_addr'] and x['h'] is not None and x['h']['exch'] == 34 and x['h']['R']):
+                        # another answer (COOKIE again, INVALID_KE_PAYLOAD) made it build a new request
+                        last = e
+                        continue
+                    pr._r('honest_retry_retransmission_checked')
+                    if e['data'] != last['data']:
+                        w.violation(PROP, 'retry_retransmission_differs', {},
+                                    f'A retransmitted its IKE_SA_INIT request at t={e["t"]:.2f} ({len(e["data"])} octets, first payload '
+                                    f'{e["data"][16]}) but the outstanding request is the cookie-bearing retry sent at t={last["t"]:.2f} '
+                                    f'({len(last["data"])} octets)')
+                        return
+                    last = e
         if ctx.get('honest') is not None:
             ok, why = ctx['honest']
             if ok:
                 pr._r('honest_established')
             elif cookies_to_a and not w.violations:
                 w.violation(PROP, 'honest_initiator_not_served_under_cookie_pressure', {},
-                            f'P received a COOKIE challenge and 6 s (lossless) after its initiation has no working CHILD_SA with D ({why}); A table '
+                            f'P received a COOKIE challenge and {10 if scenario["meta"].get("retry_lost") else 6} s after its initiation (one datagram of P lost at most) has no working CHILD_SA with D ({why}); A table '
                             f'{[(sa.state.name) for sa in w.nodes["A"].ike_sas()]}')
     ctx['at_end'] = at_end
     w = execute(scenario, setup, ctx)
